@@ -569,6 +569,9 @@ pub fn gen_c04(rng: &mut Rng, tier: Tier) -> NetProgram {
         }
         prog.modules[i].tasks = crate::asy::gen_tasks_c04(rng);
     }
+    if rng.chance(1, 40) {
+        prog.intruder = Some((rng.below(64) as u32, rng.below(4) as u8));
+    }
     prog.share_channels = rng.chance(1, 3);
     if prog.share_channels {
         // few distinct metrics, so that several links really share one object
@@ -638,6 +641,19 @@ pub fn gen_c03_net(rng: &mut Rng, tier: Tier) -> NetProgram {
             t += *rng.pick(&menu);
         }
         prog.modules[i].chained = rng.chance(1, 2);
+    }
+    // a handler may panic after it emitted (caught by the module's stereotype): what it emitted keeps its place in the
+    // scheduling order
+    if rng.chance(1, 6) {
+        let v = rng.usize(nmod);
+        let nb = prog.modules[v].beats.len();
+        if nb > 0 {
+            let bi = rng.usize(nb);
+            let na = prog.modules[v].beats[bi].acts.len();
+            let pos = 1 + rng.usize(na.max(1));
+            prog.modules[v].beats[bi].acts.insert(pos.min(na), Act::Panic);
+            prog.modules[v].catching = true;
+        }
     }
     prog
 }
